@@ -46,6 +46,9 @@ def programs(tier):
         P.append((f"reent-unschedule-other-{k}", dict(b2, reentrant={("h0", k): ("unschedule", "w1")})))
         P.append((f"reent-unschedule_all-{k}", dict(b2, reentrant={("h0", k): ("unschedule_all",)})))
         P.append((f"reent-stop-{k}", dict(b2, reentrant={("h0", k): ("stop",)})))
+    for caller in ("h0", "h1"):
+        for op in (("unschedule", "w0"), ("unschedule_all",), ("stop",)):
+            P.append((f"shared-reent-{op[0]}-by-{caller}", dict(b1, reentrant={(caller, 0): op})))
     if tier == "thorough":
         b3 = dict(init=[S("h0", "w0"), S("h1", "w0"), S("h2", "w1")], scripts={"w0": ["x", "y"], "w1": ["x", "y"]})
         P.append(("3h-remove-unschedule", dict(b3, threads=[[("remove", "h0", "w0")], [("unschedule", "w1")]])))
